@@ -591,9 +591,12 @@ def run_case(case, ctx, mode):
                 if not run_queries(case, ctx, first, state, " (first tree again, after another tree was built and queried)"):
                     return
         else:
+            # drop the tree (freed at once by reference counting; a young-generation pass for good measure - a full
+            # collection in a process that holds Hypothesis' data structures costs far more than the case itself)
             state["P"] = R["P"] if rmode == "drop-reuse-array" else None
             R = None
-            gc.collect()
+            if rd + 1 < rounds:
+                gc.collect(0)
 
 
 def one_round(case, ctx, mode, pts, rd, state, rmode):
